@@ -31,6 +31,8 @@ func main() {
 	switch *stream {
 	case "cast":
 		rep = castStream(*seed, *tier, *out, pm, *focus)
+	case "rowops":
+		rep = rowopsStream(*seed, *tier, *out, pm, *focus)
 	default:
 		fmt.Fprintln(os.Stderr, "unknown stream", *stream)
 		os.Exit(2)
